@@ -8,7 +8,9 @@ package main
 //   w<i>   inside the i-th successful socket.WriteTo (the sender goroutine is held in the conn wrapper)
 //   g<i>   inside the i-th call of ServerConfig.QueryResendDelay (the sender goroutine, after send i returned)
 //   ret    after Server.Query returned
-// (actions: reply, cancel, close = Server.Close, block = Server.SetIPBlockList covering the destination, nop)
+// (actions: reply, cancel, close = Server.Close, block = Server.SetIPBlockList covering the destination, nop,
+// stray = a datagram that is not the query's reply: near-miss source address or transaction id, see query_more.go,
+// which also holds the families "several copies of the reply", "destination address forms" and "id wrap-around")
 // and the injected resend-delay function returns 1 ms as long as no reply / cancel action was performed
 // and one hour afterwards, so no timer fires that the script did not let fire.  The few scripts that are
 // racy in the code itself (cancel before the first send) have a set of allowed outcomes in the model.
@@ -65,7 +67,8 @@ func (c *holdConn) WriteTo(b []byte, addr net.Addr) (int, error) {
 type qDir struct {
 	point  string // pre w g ret
 	i      int
-	action string // reply cancel close nop probe
+	action string // reply cancel close nop probe stray
+	k      int    // stray: index into qStrays(dest) (query_more.go)
 }
 
 func (d qDir) String() string {
@@ -91,6 +94,11 @@ type qScn struct {
 	reps    int
 	followB int // number of follow-up queries to another, silent address on the same server
 	tag     string
+	// query_more.go: destination address form ("" = the 16-byte 10.1.2.3 of the original grid), the form the genuine
+	// reply comes from ("" = the destination as given; "alt" = the other spelling of the same IPv4 address), and the
+	// kind of a case that is not a single scripted query ("wrap")
+	dest, replyForm, special string
+	wrapN                    int
 }
 
 func (sc *qScn) lhs(idx int) string {
@@ -170,6 +178,9 @@ type qRun struct {
 	blocked    bool
 	blockedAt  int
 	afterBlock int
+	wedged     bool // an API call or the serve loop did not come back: nothing that takes Server.mu is called any more
+	strays     []qStray
+	tidChanged string
 }
 
 var qProbePort int32 = 20000
@@ -191,7 +202,7 @@ func (r *qRun) runPoint(point string, i int) {
 		r.mu.Unlock()
 		switch d.action {
 		case "reply":
-			if r.tid == "" {
+			if r.tid == "" || r.wedged {
 				continue
 			}
 			r.mu.Lock()
@@ -199,15 +210,20 @@ func (r *qRun) runPoint(point string, i int) {
 				r.term = true // a reply the server cannot take (closed, source blocked) ends nothing
 			}
 			r.mu.Unlock()
-			var id krpc.ID
-			id[0], id[19] = 0x77, byte(r.dest.Port)
-			b, err := bencode.Marshal(krpc.Msg{T: r.tid, Y: "r", R: &krpc.Return{ID: id}})
+			b, err := bencode.Marshal(krpc.Msg{T: r.tid, Y: "r", R: &krpc.Return{ID: qGenuineID(r.dest)}})
 			if err != nil {
 				panic(err)
 			}
-			if !r.conn.inject(b, r.dest, 5*time.Second) && !r.closed {
-				oracle("C01", "serve-loop-stuck", "reply not taken: %s", r.detail())
+			src := r.dest
+			if r.sc.replyForm == "alt" {
+				src = qAltForm(r.dest)
 			}
+			if !r.conn.inject(b, src, 5*time.Second) && !r.closed {
+				oracle("C01", "serve-loop-stuck", "reply not taken: %s", r.detail())
+				r.wedged = true
+			}
+		case "stray":
+			r.stray(d.k)
 		case "cancel":
 			r.mu.Lock()
 			r.term = true
@@ -215,7 +231,7 @@ func (r *qRun) runPoint(point string, i int) {
 			r.cancel()
 		case "close":
 			r.closed = true
-			r.s.Close()
+			r.closeServer()
 		case "block":
 			// Server.SetIPBlockList while the query is under way: the destination is blocked from now on
 			r.mu.Lock()
@@ -226,7 +242,9 @@ func (r *qRun) runPoint(point string, i int) {
 		case "nop":
 			time.Sleep(30 * time.Millisecond)
 		case "probe":
-			r.probe()
+			if !r.wedged {
+				r.probe()
+			}
 		}
 	}
 }
@@ -283,7 +301,8 @@ func (r *qRun) run() qOutcome {
 	if sc.fail > 0 {
 		r.conn.fakeConn.failNth = map[int]bool{sc.fail: true}
 	}
-	r.dest = &net.UDPAddr{IP: net.IPv4(10, 1, 2, 3), Port: 7000 + r.rep}
+	r.dest = qDest(sc.dest, r.rep)
+	r.strays = qStrays(r.dest)
 	r.conn.before = func(b []byte, addr *net.UDPAddr) {
 		m, ok := decodeLikeServer(b)
 		if !ok || m.Y != "q" {
@@ -292,6 +311,9 @@ func (r *qRun) run() qOutcome {
 		r.mu.Lock()
 		if r.tid == "" {
 			r.tid = m.T
+			qCheckTid(m.T, r.detail())
+		} else if m.T != r.tid && r.tidChanged == "" && addr != nil && addr.Port == r.dest.Port && addr.IP.Equal(r.dest.IP) {
+			r.tidChanged = m.T
 		}
 		r.okWrites++
 		n := r.okWrites
@@ -363,7 +385,7 @@ func (r *qRun) run() qOutcome {
 		out.noReturn = true
 		oracle("C14", "query-did-not-return", "%s", r.detail())
 		cancel()
-		s.Close()
+		r.closeServer() // Server.Close takes Server.mu: guarded, a wedged server must not take the engine with it
 		select {
 		case out.res = <-resCh:
 		case <-time.After(2 * time.Second):
@@ -374,6 +396,7 @@ func (r *qRun) run() qOutcome {
 		out.class = "stuck"
 	}
 	r.runPoint("ret", 0)
+	r.c07Oracles(&out)
 	// datagrams carrying this transaction id
 	r.conn.fakeConn.mu.Lock()
 	for _, w := range r.conn.fakeConn.writes {
@@ -385,12 +408,12 @@ func (r *qRun) run() qOutcome {
 	if sc.budget >= 0 {
 		out.rated = sc.budget - r.lim.Burst()
 	}
-	out.pending = s.Stats().OutstandingTransactions
+	out.pending = r.outstanding()
 	// ---- oracles from the implementation alone ----
 	if out.writes > effTries {
 		oracle("C14", "too-many-sends", "writes=%d tries=%d %s", out.writes, effTries, r.detail())
 	}
-	if out.pending != 0 {
+	if out.pending > 0 { // -1: unknown, the server is wedged (reported where it was noticed)
 		oracle("C14", "transaction-leak", "outstanding=%d after return %s", out.pending, r.detail())
 	}
 	if r.afterClose > 0 || ((sc.closed0) && out.writes > 0) {
@@ -461,8 +484,8 @@ func (r *qRun) followUp(k int) qOutcome {
 	r.conn.fakeConn.mu.Lock()
 	out.writes = len(r.conn.fakeConn.writes) - before
 	r.conn.fakeConn.mu.Unlock()
-	out.pending = r.s.Stats().OutstandingTransactions
-	if out.pending != 0 {
+	out.pending = r.outstanding()
+	if out.pending > 0 {
 		oracle("C14", "transaction-leak", "outstanding=%d after follow-up %d of %s", out.pending, k, r.detail())
 	}
 	return out
@@ -503,7 +526,7 @@ func queryScenarios(tier string) []qScn {
 		}
 		out = append(out, sc)
 	}
-	d := func(point string, i int, action string) qDir { return qDir{point, i, action} }
+	d := func(point string, i int, action string) qDir { return qDir{point: point, i: i, action: action} }
 	for tries := 0; tries <= 4; tries++ {
 		eff := tries
 		if eff == 0 {
@@ -560,6 +583,7 @@ func queryScenarios(tier string) []qScn {
 			}
 		}
 	}
+	queryMoreScenarios(tier, add, d)
 	return out
 }
 
@@ -593,10 +617,22 @@ func queryEngine(seed uint64, tier string, args []string) {
 	}
 	time.Sleep(2 * time.Millisecond)
 	base0 := runtime.NumGoroutine()
+	wedgedFam, leakFam := map[string]int{}, map[string]int{}
 	for idx := from; idx < len(scs); idx++ {
 		emit("#qstart %d", idx)
 		out.Flush()
 		sc := &scs[idx]
+		if sc.special == "wrap" {
+			qWrapCase(idx, sc, tier, &base0)
+			out.Flush()
+			continue
+		}
+		if fam := qFamily(sc.tag); fam != "" && (wedgedFam[fam] >= 2 || leakFam[fam] >= 4) {
+			// every wedged server costs ~15 s of guards, every leak 3 s of waiting: a few cases of a family are evidence enough
+			emit("# qskip %d tag=%s: %d cases of family %s already left the server wedged, %d left goroutines behind", idx, sc.tag, wedgedFam[fam], fam, leakFam[fam])
+			continue
+		}
+		wedgedHere := false
 		outs := map[string]bool{}
 		maxPending := 0
 		var follow []string
@@ -608,14 +644,15 @@ func queryEngine(seed uint64, tier string, args []string) {
 				rated = fmt.Sprint(o.rated)
 			}
 			outs[fmt.Sprintf("%d/%s/%s", o.writes, rated, o.class)] = true
-			if o.noReturn {
-				r.s.Close()
+			if o.noReturn || r.wedged {
+				r.closeServer()
+				wedgedHere = true
 				break // one hang is a finding; do not wait for nineteen more
 			}
 			if o.pending > maxPending {
 				maxPending = o.pending
 			}
-			if sc.followB > 0 && !r.closed {
+			if sc.followB > 0 && !r.closed && !r.wedged {
 				for k := 0; k < sc.followB; k++ {
 					f := r.followUp(k)
 					follow = append(follow, fmt.Sprintf("%d/-/%s", f.writes, f.class))
@@ -624,12 +661,16 @@ func queryEngine(seed uint64, tier string, args []string) {
 					}
 				}
 			}
-			r.s.Close()
+			r.closeServer()
+		}
+		if wedgedHere {
+			wedgedFam[qFamily(sc.tag)]++
 		}
 		leak := waitGoroutines(base0, 3*time.Second)
 		if leak > 0 {
 			oracle("C14", "goroutine-leak:query", "+%d goroutines after %d repetitions of %s tag=%s", leak, sc.reps, sc.lhs(idx), sc.tag)
 			base0 = runtime.NumGoroutine()
+			leakFam[qFamily(sc.tag)]++
 		}
 		var os []string
 		for o := range outs {
@@ -723,6 +764,7 @@ func qContained(seed uint64, tier string, scs []qScn, from, only int) {
 			lhs, tag = scs[crashed].lhs(crashed), scs[crashed].tag
 		}
 		emit("oracle C01 process-died:%s %q in %s tag=%s replay: h -seed %d query -only %d", site, first, lhs, tag, seed, crashed)
+		qDeathOracles(scs, crashed, site, first, seed)
 		if deadlock || hung || strings.HasPrefix(tag, "abandonment-window") {
 			emit("oracle C01 serve-loop-blocked-by-abandoned-query process %s (%q) in %s tag=%s replay: h -seed %d query -only %d", site, first, lhs, tag, seed, crashed)
 		}
